@@ -1,19 +1,71 @@
 """
-rsexpr.py — a translator for a small, pure fragment of Rust into Lean 4 (engine E2).
+rsexpr.py — a translator for a small fragment of Rust into Lean 4 (engine E2).
 
-Accepted fragment (anything else makes the translator fail, which ./check treats as a broken
-obligation): a function whose body is a block of
-    let <ident | (a, b)> = <expr>;        if <expr> { return <expr>; }        return <expr>;
-followed by a final expression; expressions are built from identifiers, integer / bool literals,
-paths (`Orientation::Collinear`, `T::zero()`, `Zero::zero()`), field access, no-argument method
-calls (`self.min()`, treated like fields), calls of whitelisted functions, tuples, unary `!`, `-`,
-`*` (deref, ignored), `&` (ignored), binary `|| && == != < <= > >= + - * /`, parentheses,
-`if … { … } else if … { … } else { … }`, fixed-length array literals (→ tuples), constant indexing
-`e[0][1]` (resolved by the caller's substitution table, an unresolved index is an error), struct literals
-of whitelisted structs with all fields in declaration order (also through the `coord!` macro), and `T::from(x)?` with `x : T` (identity).
+Sound by construction: the translator succeeds only on source it understands; anything else raises `TranslateError`
+(./check treats that as a broken obligation), never a guess. Every *semantic choice* (what a library method means, how a
+machine type is modelled) is an explicit entry of the job's tables in rs2lean.py (`funcs`, `accessors`, `opts`) or one of
+the fixed rules listed under "Semantic choices" below.
 
-Numbers become `Rat`, comparisons `decide (…)`, so that the result is a computable Lean term which
-can be compared (`rfl` / `simp`) with the hand-written model.
+1. Expression fragment (class `Parser`, entry `translate`)
+   A function whose body is a block of
+       let <ident | (a, b)> = <expr>;        if <expr> { return <expr>; }        return <expr>;
+   followed by a final expression; expressions are built from identifiers, integer / bool literals, paths
+   (`Orientation::Collinear`, `T::zero()`), field access, no-argument method calls (`self.min()`: through the job's `accessors`
+   templates; for the older jobs without such a table they are kept like fields and resolved by the job's substitutions),
+   calls of whitelisted functions / methods (a whitelist entry is a Lean function name or a template `{0} {1} …` over receiver
+   and arguments; one method name on receivers of different static types is resolved by a list of (receiver pattern, template)),
+   tuples, unary `!`, `-`, `*` (deref, ignored), `&` (ignored), binary `|| && == != < <= > >= + - * / %`, parentheses,
+   `if … { … } else if … { … } else { … }`, `match e { P | Q => e, … }` with enum-path patterns and `_`,
+   pure closures `|a, &b| e` (→ `fun a b => e`, only as arguments of whitelisted methods such as `.any`, `.all`, `.fold`),
+   fixed-length array literals (→ tuples), constant indexing `e[0][1]` (resolved by the caller's substitution table, an
+   unresolved index is an error), struct literals of whitelisted structs with all fields in declaration order (also `coord!`
+   and the field-init shorthand `Self { exterior, interiors }`), `T::from(x)?` with `x : T` (identity), `unreachable!(…)`
+   (only with a value chosen by the job).
+
+2. Effect blocks (class `EffectParser`, entry `translate_effect_loop`): the body of one `for` loop whose effects are
+   `acc += 1`, `acc -= 1`, early `return X;` → `Option Int` (kept for `ringEdge`).
+
+3. Statement fragment (class `StmtParser`, entry `translate_fn`): whole functions with mutable state.
+   * State: `&mut` parameters (`is_inside: &mut bool`), `mut` by-value parameters, fields of `&mut self` declared as *places*
+     (`self.exterior` → one variable), and `let mut x = e;` locals (type from the job's `mut_types`, `Bool` for a bool literal).
+     Every mutable variable is a Lean `let`-bound name; assignment (`x = e`, `*x = e`, `x += e`, `-=`, `*=`, `/=`) is a shadowing
+     `let`. Shadowing a live mutable variable by `let` is rejected. A unit function returns `ret_ctor` applied to its `&mut`
+     parameters (`PosAcc.mk is_inside boundary_count`); with `ret_both` a function returns (state, value).
+   * Control: `return;` / `return e;` anywhere; `if` / `else if` / `else` and `match` (arms: block, `return`, assignment, value,
+     `unreachable!`) as statements. When a branch statement is followed by more code and more than one arm falls through (or
+     an arm binds a name that the following code mentions), the following code becomes a *join point*: a local function of the
+     live mutable variables (`let k := fun (m₁ : T₁) … => rest`), called from every arm that falls through; otherwise it is inlined.
+   * Loops: `for x in <list expr> { … }` over the live mutable variables σ: without a `return` in the body a `List.foldl`
+     (the accumulating loops of area.rs), with one `Gen.loop` (GeoModel/TRANPrelude.lean: each iteration yields `Step.next σ` or
+     `Step.ret r`, the latter leaves the function). `for x in &mut v { … }` where the body updates only `x` is `v := v.map …`.
+   * State-transforming calls `recv.m(args…, a, &mut b)` of a job-listed method (`calculate_coordinate_position`): the listed
+     Lean function applied to receiver, arguments and the constructor of the state, results projected back into the variables.
+     `X.push(e)` on a list variable is append; `X.m(..)` for a job-listed `mut_methods` entry is `X := m X ..`;
+     `f(&mut X)` / `let r = f(&mut X)` for a closure *parameter* `f` is a job-declared function old X ↦ (new X, result).
+   * Fixed arrays: a job-declared array (`self.to_lines()`, its elements read off the source by `array_literal`) under
+     `.map(|x| { …; value })` is unrolled element by element in order, assignments to captured mutable variables flowing from
+     one copy to the next; the result is known element by element: `a[0]`, `a.windows(k).all(|w| …)` / `.any` (unrolled),
+     `a.sort()` (the job names the sorting function for that length). Names bound inside an unrolled closure or an inlined
+     arm must not occur in the code after it (checked on the tokens; otherwise an error).
+   * List iterators: `let Some(x) = it.next() else { … };` = head of the list, `let Some(x) = it.find(|v| p) else { … };` =
+     head of `List.dropWhile (¬p)`; `it` continues behind the element taken; the else block must diverge.
+   * Skipped: `use …;` inside bodies.
+
+Semantic choices (fixed rules; everything else is in the job tables of rs2lean.py, each with a comment there)
+   * numbers are exact rationals (`Rat`; counters `Nat` / `Int` per job): no overflow, no rounding, no NaN — so
+     `a.partial_cmp(&b)` is never `None` (`Gen.partialCmp?`), comparisons become `decide (…)`, integer `/` and `%` are only
+     used on `Nat` counters; `as` casts are dropped (only between number types, in the older jobs).
+   * `Option::unwrap` is the total `Gen.unwrap` (default on `None`); panics are not modelled — the correspondence harness
+     runs every case under `catch_unwind` and reports `panic`.
+   * `debug_assert!(…)` needs the job option `debug_assert: "skip"` = release-build semantics (the harness is built with
+     `--release`); `debug_assert!(!X.is_empty())` additionally serves as the length guard for `X[0]` that follows it.
+   * `v[k]` on a `Vec` with a constant `k` is accepted only under a dominating guard (`v.len() == n` branch, early return on
+     `v.len() < n` / `v.is_empty()`, or the debug assertion above) and becomes `Gen.idx v k` whose default is unreachable.
+   * `unreachable!()` arms take the value chosen by the job (dead code for the types concerned).
+   * Rust identifiers that are reserved words of Lean get a trailing `_` (not field names after a `.`).
+
+Numbers become `Rat`, comparisons `decide (…)`, so that the result is a computable Lean term which can be compared
+(`rfl` / `simp`) with the hand-written model.
 """
 import re
 
@@ -22,7 +74,13 @@ class TranslateError(Exception):
     pass
 
 
-TOK = re.compile(r"\s*(?:(\d+\.\d+|\d+)|([A-Za-z_][A-Za-z_0-9]*(?:::[A-Za-z_][A-Za-z_0-9]*)*)|(\|\||&&|==|!=|<=|>=|->|=>|[-+*/!<>=(){},;.&:\[\]?]))")
+# Rust identifiers that are reserved words of Lean get a trailing underscore (only as stand-alone names, not as fields)
+LEAN_KEYWORDS = set("""end at from by do then fun have show open with calc instance def theorem structure class namespace
+section variable universe import export mutual macro syntax notation unless try catch finally deriving extends abbrev example
+using suffices obtain nomatch nofun Type Prop Sort""".split())
+
+
+TOK = re.compile(r"\s*(?:(\d+\.\d+|\d+)|([A-Za-z_][A-Za-z_0-9]*(?:::[A-Za-z_][A-Za-z_0-9]*)*)|(\|\||&&|==|!=|<=|>=|->|=>|[-+*/%!<>=(){},;.&:\[\]?|])|(\"(?:[^\"\\]|\\.)*\"))")
 
 
 def tokenize(src):
@@ -37,7 +95,12 @@ def tokenize(src):
         if m.group(1):
             toks.append(("num", m.group(1)))
         elif m.group(2):
-            toks.append(("id", m.group(2)))
+            name = m.group(2)
+            if name in LEAN_KEYWORDS and not (toks and toks[-1] == ("op", ".")):
+                name += "_"                         # a Rust name that is a reserved word of Lean (not a field name)
+            toks.append(("id", name))
+        elif m.group(4):
+            toks.append(("str", m.group(4)))       # string literal: only legal inside a skipped macro argument list
         else:
             toks.append(("op", m.group(3)))
         i = m.end()
@@ -45,9 +108,16 @@ def tokenize(src):
 
 
 class Parser:
-    def __init__(self, toks, paths, funcs, structs=None):
+    def __init__(self, toks, paths, funcs, structs=None, opts=None):
         self.t, self.i, self.paths, self.funcs = toks, 0, paths, funcs
         self.structs = structs or {}
+        self.opts = opts or {}
+        self.accessors = self.opts.get("accessors", {})     # no-argument methods: name -> template over the receiver
+        self.strict = self.opts.get("strict", False)          # unknown no-argument method => error
+        self.arrays = {}                                      # fixed-length arrays known element by element
+        self.minlen = {}                                      # Vec term -> length lower bound established by a guard
+        self.bound = set()                                    # names bound by let / closures / loops so far
+        self.pending = None
 
     def peek(self, k=0):
         return self.t[self.i + k] if self.i + k < len(self.t) else ("eof", "")
@@ -63,13 +133,14 @@ class Parser:
         return self.peek()[1] == val and self.peek()[0] in ("op", "id")
 
     # ---- blocks and statements -> Lean term
-    def block(self):
+    def block(self, tail=False):
+        """`tail`: the block's value is the value of the enclosing function (or closure), so `return e` = the value `e`"""
         self.eat("op", "{")
-        term = self.stmts()
+        term = self.stmts(tail)
         self.eat("op", "}")
         return "(" + term + ")" if term.startswith("let ") or term.startswith("if ") else term
 
-    def stmts(self):
+    def stmts(self, tail=False):
         if self.at("let"):
             self.eat()
             if self.at("mut"):
@@ -90,8 +161,10 @@ class Parser:
             self.eat("op", "=")
             e = self.expr()
             self.eat("op", ";")
-            return "let %s := %s\n  %s" % (pat, e, self.stmts())
+            return "let %s := %s\n  %s" % (pat, e, self.stmts(tail))
         if self.at("return"):
+            if not tail:
+                raise TranslateError("`return` inside a nested block expression")
             self.eat()
             e = self.expr()
             if self.at(";"):
@@ -102,30 +175,104 @@ class Parser:
             save = self.i
             self.eat()
             c = self.expr()
-            body = self.block()
+            body = self.block(tail)
             if self.at("else"):
                 self.i = save
-                e = self.expr()
+                e = self.expr(tail)
                 return e
             if self.at("}"):
                 raise TranslateError("`if` without else as final expression")
-            rest = self.stmts()
+            rest = self.stmts(tail)
             return "if %s then %s else\n  %s" % (c, body, rest)
-        e = self.expr()
+        e = self.expr(tail)
         return e
 
     # ---- expressions
-    def expr(self):
+    def expr(self, tail=False):
         if self.at("if"):
             self.eat()
             c = self.expr()
-            a = self.block()
+            a = self.block(tail)
             self.eat("id", "else")
-            b = self.expr() if self.at("if") else self.block()
+            b = self.expr(tail) if self.at("if") else self.block(tail)
             return "(if %s then %s else %s)" % (c, a, b)
+        if self.at("match"):
+            return self.match_expr(tail)
         return self.binary(0)
 
-    LEVELS = [["||"], ["&&"], ["==", "!=", "<", "<=", ">", ">="], ["+", "-"], ["*", "/"]]
+    def pattern(self):
+        tk = self.eat()
+        if tk == ("id", "_"):
+            return "_"
+        if tk[0] == "id" and tk[1] in self.paths and "::" in tk[1]:
+            return self.paths[tk[1]]
+        raise TranslateError("pattern outside the fragment: %s" % (tk,))
+
+    def patterns(self):
+        pats = [self.pattern()]
+        while self.at("|"):
+            self.eat(); pats.append(self.pattern())
+        return " | ".join(pats)
+
+    def skip_macro_args(self):
+        """skip `!( … )` of a macro invocation whose arguments are not translated"""
+        self.eat("op", "!"); self.eat("op", "(")
+        depth = 1
+        while depth:
+            tk = self.eat()
+            if tk[0] == "eof":
+                raise TranslateError("unbalanced macro arguments")
+            if tk == ("op", "("): depth += 1
+            elif tk == ("op", ")"): depth -= 1
+
+    def unreachable(self):
+        self.eat("id", "unreachable")
+        self.skip_macro_args()
+        if "unreachable" not in self.opts:
+            raise TranslateError("unreachable!() without a value chosen by the job")
+        return self.opts["unreachable"]
+
+    def match_expr(self, tail=False):
+        """`match e { P | Q => expr, … }` with enum-path patterns and pure arms"""
+        self.eat("id", "match")
+        scrut = self.expr()
+        self.eat("op", "{")
+        arms = []
+        while not self.at("}"):
+            pats = self.patterns()
+            self.eat("op", "=>")
+            if self.at("unreachable"):
+                body = self.unreachable()
+            elif self.at("{"):
+                body = self.block(tail)
+            else:
+                body = self.expr()
+            if self.at(","):
+                self.eat()
+            arms.append("\n  | %s => %s" % (pats, body))
+        self.eat("op", "}")
+        if not arms:
+            raise TranslateError("empty match")
+        return "(match %s with%s)" % (scrut, "".join(arms))
+
+    def closure(self):
+        """`|a, &b| body` (pure body) -> `(fun a b => body)`"""
+        self.eat("op", "|")
+        params = []
+        while not self.at("|"):
+            if self.at("&"):
+                self.eat()
+            params.append(self.eat("id")[1])
+            if self.at(","):
+                self.eat()
+        self.eat("op", "|")
+        if not params:
+            raise TranslateError("closure without parameters")
+        self.bound.update(params)
+        body = self.expr(True)        # `return e` inside a closure body = the closure's value
+        return "(fun %s => %s)" % (" ".join(params), body)
+
+    LEVELS = [["||"], ["&&"], ["==", "!=", "<", "<=", ">", ">="], ["+", "-"], ["*", "/", "%"]]
 
     def binary(self, lvl):
         if lvl == len(self.LEVELS):
@@ -142,6 +289,8 @@ class Parser:
         return lhs
 
     def unary(self):
+        if self.at("|"):
+            return self.closure()
         if self.at("!"):
             self.eat(); return "(!%s)" % self.unary()
         if self.at("-"):
@@ -149,6 +298,78 @@ class Parser:
         if self.at("*") or self.at("&"):
             self.eat(); return self.unary()
         return self.postfix()
+
+    def call_template(self, tmpl, recv, args):
+        if isinstance(tmpl, list):
+            # one method name on receivers of different static types: the job lists (receiver pattern, template)
+            for pat, t in tmpl:
+                if recv is not None and re.match(pat, recv):
+                    tmpl = t
+                    break
+            else:
+                raise TranslateError("no receiver pattern of the job matches %r" % (recv,))
+        if "{" in tmpl:
+            return tmpl.format(*(([recv] if recv is not None else []) + args))
+        return "(%s %s)" % (tmpl, " ".join(([recv] if recv is not None else []) + args))
+
+    def args(self):
+        """`( e, … )` with optional trailing comma"""
+        self.eat("op", "(")
+        args = []
+        while not self.at(")"):
+            args.append(self.expr())
+            if self.at(","):
+                self.eat()
+            elif not self.at(")"):
+                raise TranslateError("expected , or ) in argument list, found %s" % (self.peek(),))
+        self.eat("op", ")")
+        return args
+
+    def windows(self, elems):
+        """`arr.windows(k).all(|w| e)` / `.any(…)` on an array known element by element: unrolled"""
+        self.eat("op", "(")
+        k = int(self.eat("num")[1])
+        self.eat("op", ")")
+        self.eat("op", ".")
+        quant = self.eat("id")[1]
+        if quant not in ("all", "any") or k < 1 or k > len(elems):
+            raise TranslateError("windows(%d).%s outside the fragment" % (k, quant))
+        self.eat("op", "(")
+        self.eat("op", "|")
+        w = self.eat("id")[1]
+        self.eat("op", "|")
+        start = self.i
+        parts = []
+        for j in range(len(elems) - k + 1):
+            self.i = start
+            if w in self.arrays:
+                raise TranslateError("closure parameter shadows an array")
+            self.arrays[w] = elems[j:j + k]
+            parts.append(self.expr())
+            del self.arrays[w]
+        self.eat("op", ")")
+        return "(" + (" && " if quant == "all" else " || ").join(parts) + ")"
+
+    def state_call(self, recv, name):
+        """`recv.m(args…, [&mut] a, [&mut] b)` for a whitelisted state-transforming method: only legal as a statement"""
+        spec = self.opts["state_calls"][name]
+        self.eat("op", "(")
+        args = []
+        while not self.at(")"):
+            if self.at("&") and self.peek(1) == ("id", "mut"):
+                self.eat(); self.eat()
+            args.append(self.expr())
+            if self.at(","):
+                self.eat()
+        self.eat("op", ")")
+        n = len(spec["proj"])
+        if len(args) < n:
+            raise TranslateError("state call %s with too few arguments" % name)
+        if self.pending is not None:
+            raise TranslateError("two state calls in one statement")
+        self.pending = {"fn": spec["fn"], "ctor": spec["ctor"], "proj": spec["proj"], "recv": recv,
+                        "args": args[:len(args) - n], "muts": args[len(args) - n:]}
+        return "⟪STATECALL⟫"
 
     def postfix(self):
         e = self.primary()
@@ -160,25 +381,56 @@ class Parser:
                 if tk[0] == "num":
                     name = str(int(name) + 1)      # tuple projection .0 -> .1
                 if self.at("("):
-                    self.eat("op", "(")
-                    if self.at(")"):
-                        self.eat("op", ")")                     # no-argument method = accessor
-                        e = "%s.%s" % (e, name)
+                    if e in self.arrays:
+                        if name == "windows":
+                            e = self.windows(self.arrays[e])
+                            continue
+                        raise TranslateError("use of the array %s outside the fragment" % e)
+                    if name in self.opts.get("state_calls", {}):
+                        e = self.state_call(e, name)
+                        continue
+                    if name == "map" and e in self.opts.get("arrays", {}) and self.peek(1) == ("op", "|"):
+                        # `ARR.map(|x| …)` on a job-declared fixed array: recorded, unrolled by the `let` statement
+                        self.eat("op", "(")
+                        start, depth = self.i, 1
+                        while depth:
+                            tk2 = self.eat()
+                            if tk2[0] == "eof":
+                                raise TranslateError("unbalanced closure")
+                            if tk2 == ("op", "("): depth += 1
+                            elif tk2 == ("op", ")"): depth -= 1
+                        if self.pending is not None:
+                            raise TranslateError("two pending forms in one statement")
+                        self.pending = {"array": self.opts["arrays"][e], "start": start, "end": self.i}
+                        e = "⟪ARRAYMAP⟫"
+                        continue
+                    if self.peek(1) == ("op", ")"):
+                        self.eat("op", "("); self.eat("op", ")")     # no-argument method = accessor
+                        if name in self.accessors:
+                            e = self.accessors[name].format(e)
+                        elif self.strict:
+                            raise TranslateError("no-argument method outside the whitelist: .%s()" % name)
+                        else:
+                            e = "%s.%s" % (e, name)
                     else:
-                        args = [self.expr()]
-                        while self.at(","):
-                            self.eat(); args.append(self.expr())
-                        self.eat("op", ")")
+                        args = self.args()
                         if "." + name not in self.funcs:
                             raise TranslateError("method call outside the whitelist: .%s" % name)
-                        e = "(%s %s %s)" % (self.funcs["." + name], e, " ".join(args))
+                        e = self.call_template(self.funcs["." + name], e, args)
                 else:
                     e = "%s.%s" % (e, name)
             elif self.at("["):
                 self.eat()
                 n = self.eat("num")[1]
                 self.eat("op", "]")
-                e = "%s⟦%s⟧" % (e, n)          # constant index; resolved by the caller's substitutions
+                if e in self.arrays:
+                    if int(n) >= len(self.arrays[e]):
+                        raise TranslateError("index %s out of range for array %s" % (n, e))
+                    e = self.arrays[e][int(n)]
+                elif self.minlen.get(e, 0) > int(n):
+                    e = "(Gen.idx %s %s)" % (e, n)     # Vec index dominated by a length guard
+                else:
+                    e = "%s⟦%s⟧" % (e, n)          # constant index; resolved by the caller's substitutions
             elif self.at("as"):
                 self.eat(); self.eat("id")
             else:
@@ -208,6 +460,8 @@ class Parser:
                 items.append(self.expr())
             self.eat("op", "]")
             return "(" + ", ".join(items) + ")"
+        if tk == ("id", "unreachable") and self.peek(1) == ("op", "!"):
+            return self.unreachable()
         if tk[0] == "id":
             self.eat()
             name = tk[1]
@@ -222,8 +476,12 @@ class Parser:
                 self.eat()
                 vals = []
                 for f in self.structs[name][1]:
-                    self.eat("id", f); self.eat("op", ":")
-                    vals.append(self.expr())
+                    self.eat("id", f)
+                    if self.at(":"):
+                        self.eat("op", ":")
+                        vals.append(self.expr())
+                    else:
+                        vals.append(f)             # field init shorthand `Name { f, … }`
                     if self.at(","):
                         self.eat()
                 self.eat("op", "}")
@@ -250,13 +508,17 @@ class Parser:
                     return self.paths[name]
                 if name not in self.funcs:
                     raise TranslateError("call of a function outside the whitelist: %s" % name)
-                return "(%s %s)" % (self.funcs[name], " ".join(args))
+                return self.call_template(self.funcs[name], None, args)
             if name in ("true", "false"):
                 return name
             if name in self.paths:
                 return self.paths[name]
             if "::" in name:
                 raise TranslateError("unknown path %s" % name)
+            if name in self.arrays and not (self.at("[") or (self.at(".") and self.peek(1) == ("id", "windows"))):
+                raise TranslateError("use of the array %s outside the fragment" % name)
+            if name in LEAN_KEYWORDS:
+                return name + "_"
             return name
         raise TranslateError("unexpected token %s" % (tk,))
 
@@ -280,7 +542,7 @@ def fn_body(src, header_regex):
 def translate(src, header_regex, paths, funcs, subst, structs=None, resub=()):
     body = fn_body(src, header_regex)
     p = Parser(tokenize(body), paths, funcs, structs)
-    term = p.block()
+    term = p.block(True)
     if term.startswith("(let ") or term.startswith("(if "):
         term = term[1:-1]
     if p.peek()[0] != "eof":
@@ -406,3 +668,653 @@ def translate_effect_loop(src, loop_regex, paths, funcs, subst, acc):
     for a, b in subst:
         term = re.sub(r"(?<![A-Za-z_0-9.])" + re.escape(a) + r"(?![A-Za-z_0-9])", b, term)
     return term
+
+
+# ---------------------------------------------------------------------------------------------
+# Statement fragment: functions with mutable state (`&mut` accumulator parameters, `let mut` locals), early
+# `return`, `if` / `match` statements, `for` loops over lists, state-transforming calls. See the module docstring.
+
+PH = "⟪K⟫"          # "what follows this statement" while the arms of an if / match are being translated
+
+
+class Env:
+    def __init__(self, muts, cont, tail, retraw, ty):
+        self.muts = muts        # live mutable variables [(name, Lean type)], in declaration order
+        self.cont = cont        # term for "control falls off the end of the block" (None: a value is required)
+        self.tail = tail        # value term -> term, for a trailing expression (None: not allowed)
+        self.retraw = retraw    # function-result term -> term of the current block's type
+        self.ty = ty            # Lean type of the current block's term
+
+    def with_(self, **kw):
+        e = Env(self.muts, self.cont, self.tail, self.retraw, self.ty)
+        for k, v in kw.items():
+            setattr(e, k, v)
+        return e
+
+    def names(self):
+        return [n for n, _ in self.muts]
+
+
+def par(t):
+    return "(" + t + ")" if t.startswith("let ") or t.startswith("match ") else t
+
+
+def proj(s, i, n):
+    if n == 1:
+        return s
+    if i == n - 1:
+        return s + ".2" * (n - 1)
+    return s + ".2" * i + ".1"
+
+
+class StmtParser(Parser):
+    """opts: muts [(name, type)] (`&mut` parameters), ret_ctor (constructor applied to the `&mut` parameters = result of
+    a unit function), ret_type, mut_types {local: type}, state_calls {method: {fn, ctor, proj}}, accessors {method: template},
+    arrays {receiver term: [element terms]}, debug_assert ("skip"), unreachable (term)."""
+
+    def __init__(self, toks, paths, funcs, structs=None, opts=None):
+        opts = dict(opts or {})
+        opts.setdefault("strict", True)
+        super().__init__(toks, paths, funcs, structs, opts)
+        self.fresh = 0
+
+    def gensym(self, base):
+        self.fresh += 1
+        return "%s%d" % (base, self.fresh)
+
+    # ---- function level
+    def function(self):
+        muts = list(self.opts.get("muts", []))
+        rho = self.opts.get("ret_type")
+        if not rho:
+            raise TranslateError("job without ret_type")
+        self.fn_both = bool(self.opts.get("ret_both"))     # result = (state built by ret_ctor, value)
+        if self.opts.get("ret_ctor") and not self.fn_both:
+            self.fn_unit = True
+            env = Env(muts, self.unit_value(), None, lambda v: v, rho)
+        else:
+            # a function with a result; `mut` by-value parameters are plain local mutable variables
+            self.fn_unit = False
+            env = Env(muts, None, lambda v: self.fn_value(v), lambda v: v, rho)
+        term = self.sblock(env)
+        if self.peek()[0] != "eof":
+            raise TranslateError("trailing tokens after function body")
+        return term
+
+    def unit_value(self):
+        return "(%s %s)" % (self.opts["ret_ctor"], " ".join(n for n, _ in self.opts["muts"]))
+
+    def fn_value(self, v):
+        """the function result for `return v;` / `return;`"""
+        if self.fn_unit:
+            if v is not None:
+                raise TranslateError("`return <value>` in a unit function")
+            return self.unit_value()
+        if v is None:
+            raise TranslateError("`return;` in a function with a result")
+        if self.fn_both:
+            return "(%s, %s)" % (self.unit_value(), v)
+        return v
+
+    # ---- blocks
+    def sblock(self, env):
+        self.eat("op", "{")
+        saved = dict(self.minlen)
+        t = self.sstmts(env)
+        self.eat("op", "}")
+        self.minlen = saved
+        return t
+
+    def end_of_stmt(self):
+        """after a statement without `;` only the end of the block (or of a match arm) may follow"""
+        if self.at(";"):
+            self.eat()
+            return
+        if not (self.at("}") or self.at(",")):
+            raise TranslateError("expected ; near %s" % (self.peek(),))
+
+    def check_fresh(self, env, names):
+        for n in names:
+            if n in env.names():
+                raise TranslateError("shadowing of the mutable variable %s is outside the fragment" % n)
+        self.bound.update(names)
+
+    def sstmts(self, env):
+        while self.at(";"):
+            self.eat()
+        if self.at("}"):
+            if env.cont is None:
+                raise TranslateError("block ends without a value")
+            return env.cont
+        if self.at("use"):
+            while not self.at(";"):
+                self.eat()
+            return self.sstmts(env)
+        if self.at("debug_assert") or self.at("debug_assert_eq"):
+            if self.opts.get("debug_assert") != "skip":
+                raise TranslateError("debug_assert! without an explicit choice of the job")
+            self.eat()
+            a = self.i
+            self.skip_macro_args()
+            toks = self.t[a + 2:self.i - 1]
+            # `debug_assert!(!X.is_empty())`: the source's own claim that X has an element, used as a length guard
+            if (len(toks) >= 6 and toks[0] == ("op", "!") and toks[-4:] == [("op", "."), ("id", "is_empty"), ("op", "("), ("op", ")")]):
+                sub = Parser(toks[1:-4], self.paths, self.funcs, self.structs, self.opts)
+                x = sub.postfix()
+                if sub.peek()[0] == "eof":
+                    self.minlen[x] = max(self.minlen.get(x, 0), 1)
+            return self.sstmts(env)
+        if self.at("let"):
+            return self.let_stmt(env)
+        m = self.mut_method(env)
+        if m is not None:
+            return m
+        if self.at("return"):
+            self.eat()
+            v = None if (self.at(";") or self.at("}") or self.at(",")) else self.expr()
+            self.end_of_stmt()
+            if not (self.at("}") or self.at(",")):
+                raise TranslateError("statements after `return`")
+            return env.retraw(self.fn_value(v))
+        if self.at("if"):
+            return self.branch_stmt(env, self.skip_if_chain, self.if_chain)
+        if self.at("match"):
+            return self.branch_stmt(env, self.skip_match, self.match_chain)
+        if self.at("for"):
+            return self.for_stmt(env)
+        a = self.try_assign(env)
+        if a is not None:
+            name, e = a
+            self.end_of_stmt()
+            return "let %s := %s\n%s" % (name, e, self.sstmts(env))
+        if (self.peek()[0] == "id" and self.peek()[1] in self.arrays and self.peek(1) == ("op", ".")
+                and self.peek(2) == ("id", "sort") and self.peek(3) == ("op", "(") and self.peek(4) == ("op", ")")):
+            # `arr.sort();` on an array known element by element: the job names the sorting function for that length
+            name = self.eat()[1]
+            for _ in range(4):
+                self.eat()
+            self.eat("op", ";")
+            elems = self.arrays[name]
+            fn = self.opts.get("array_sort", {}).get(len(elems))
+            if fn is None:
+                raise TranslateError("sort() of an array of length %d without a choice of the job" % len(elems))
+            sv = self.gensym(name + "_sorted")
+            self.arrays[name] = [proj(sv, i, len(elems)) for i in range(len(elems))]
+            return "let %s := (%s %s)\n%s" % (sv, fn, " ".join(elems), self.sstmts(env))
+        e = self.expr()
+        if e == "⟪STATECALL⟫":
+            p, self.pending = self.pending, None
+            self.end_of_stmt()
+            for m in p["muts"]:
+                if m not in env.names():
+                    raise TranslateError("state call: %s is not a live mutable variable" % m)
+            r = self.gensym("r")
+            out = "let %s := (%s %s (%s %s))\n" % (r, p["fn"], " ".join([p["recv"]] + p["args"]), p["ctor"], " ".join(p["muts"]))
+            for m, f in zip(p["muts"], p["proj"]):
+                out += "let %s := %s.%s\n" % (m, r, f)
+            return out + self.sstmts(env)
+        if self.at(";"):
+            raise TranslateError("expression statement outside the fragment: %s" % e[:60])
+        if not (self.at("}") or self.at(",")):
+            raise TranslateError("unexpected token after expression: %s" % (self.peek(),))
+        if env.tail is None:
+            raise TranslateError("trailing expression where no value is expected: %s" % e[:60])
+        return env.tail(e)
+
+    def closure_param_call(self, env):
+        """`f(&mut X)` with `f` a closure parameter of the function and X a live mutable variable: per job, the closure is a
+        function from the old value of X to (new value, result); returns (X, term of the call) or None"""
+        fp = self.opts.get("fn_params", {})
+        if not (self.peek()[0] == "id" and self.peek()[1] in fp and self.peek(1) == ("op", "(") and self.peek(2) == ("op", "&")
+                and self.peek(3) == ("id", "mut") and self.peek(4)[0] == "id" and self.peek(4)[1] in env.names()
+                and self.peek(5) == ("op", ")")):
+            return None
+        f, x = self.peek()[1], self.peek(4)[1]
+        for _ in range(6):
+            self.eat()
+        return f, x
+
+    def mut_method(self, env):
+        """statements that update one live mutable variable in place: `X.push(e);`, `X.m(args);` for a job-listed method,
+        `f(&mut X);` for a closure parameter"""
+        c = self.closure_param_call(env)
+        if c is not None:
+            f, x = c
+            self.eat("op", ";")
+            spec = self.opts["fn_params"][f]
+            r = self.gensym("r")
+            self.forget_len(x)
+            return "let %s := (%s %s)\nlet %s := %s\n%s" % (r, f, x, x, spec["state"].format(r=r, x=x), self.sstmts(env))
+        if not (self.peek()[0] == "id" and self.peek()[1] in env.names() and self.peek(1) == ("op", ".")
+                and self.peek(2)[0] == "id" and self.peek(3) == ("op", "(")):
+            return None
+        x, m = self.peek()[1], self.peek(2)[1]
+        typ = dict(env.muts)[x]
+        if m == "push" and typ.startswith("List "):
+            fn = "{0} ++ [{1}]"           # Vec::push = append at the end
+        elif m in self.opts.get("mut_methods", {}):
+            fn = self.opts["mut_methods"][m]
+        else:
+            return None
+        for _ in range(3):
+            self.eat()
+        args = self.args()
+        self.end_of_stmt()
+        self.forget_len(x)
+        val = fn.format(x, *args) if "{" in fn else "(%s %s)" % (fn, " ".join([x] + args))
+        return "let %s := (%s)\n%s" % (x, val, self.sstmts(env))
+
+    def forget_len(self, x):
+        """a mutable variable was updated: length guards that mention it no longer hold"""
+        pat = re.compile(r"(?<![A-Za-z_0-9.])" + re.escape(x) + r"(?![A-Za-z_0-9])")
+        self.minlen = {k: v for k, v in self.minlen.items() if not pat.search(k)}
+
+    def try_assign(self, env):
+        """`[*]x = e`, `[*]x += e` (also - * /) on a live mutable variable"""
+        j = self.i
+        if self.peek() == ("op", "*"):
+            j += 1
+        tk = self.t[j] if j < len(self.t) else ("eof", "")
+        if tk[0] != "id" or tk[1] not in env.names():
+            return None
+        nxt = self.t[j + 1] if j + 1 < len(self.t) else ("eof", "")
+        nxt2 = self.t[j + 2] if j + 2 < len(self.t) else ("eof", "")
+        if nxt == ("op", "="):
+            self.i = j + 2
+            e = self.expr()
+            self.forget_len(tk[1])
+            return tk[1], e
+        if nxt[0] == "op" and nxt[1] in "+-*/" and nxt2 == ("op", "="):
+            self.i = j + 3
+            e = self.expr()
+            self.forget_len(tk[1])
+            return tk[1], "(%s %s %s)" % (tk[1], nxt[1], e)
+        return None
+
+    def let_stmt(self, env):
+        self.eat("id", "let")
+        if self.at("mut"):
+            self.eat()
+            name = self.eat("id")[1]
+            if self.at(":"):
+                while not self.at("="):
+                    self.eat()
+            self.eat("op", "=")
+            e = self.expr()
+            if e == "⟪ARRAYMAP⟫":
+                # a fixed array built element by element; the only mutation accepted afterwards is `name.sort()`
+                return self.array_map(env, name)
+            self.eat("op", ";")
+            typ = self.opts.get("mut_types", {}).get(name) or ("Bool" if e in ("true", "false") else None)
+            if typ is None:
+                raise TranslateError("`let mut %s` without a type chosen by the job" % name)
+            self.check_fresh(env, [name])
+            rest = self.sstmts(env.with_(muts=env.muts + [(name, typ)]))
+            return "let %s : %s := %s\n%s" % (name, typ, e, rest)
+        if self.at("Some"):
+            return self.let_else(env)
+        if self.at("("):
+            self.eat()
+            names = [self.eat("id")[1]]
+            while self.at(","):
+                self.eat(); names.append(self.eat("id")[1])
+            self.eat("op", ")")
+            pat = "(" + ", ".join(names) + ")"
+        else:
+            names = [self.eat("id")[1]]
+            pat = names[0]
+        if self.at(":"):
+            while not self.at("="):
+                self.eat()
+        self.eat("op", "=")
+        c = self.closure_param_call(env)
+        if c is not None:
+            f, x = c
+            self.eat("op", ";")
+            spec = self.opts["fn_params"][f]
+            r = self.gensym("r")
+            self.check_fresh(env, names)
+            return ("let %s := (%s %s)\nlet %s := %s\nlet %s := %s\n%s"
+                    % (r, f, x, pat, spec["value"].format(r=r, x=x), x, spec["state"].format(r=r, x=x), self.sstmts(env)))
+        e = self.expr()
+        if e == "⟪ARRAYMAP⟫":
+            if len(names) != 1:
+                raise TranslateError("array map bound to a pattern")
+            return self.array_map(env, names[0])
+        self.eat("op", ";")
+        self.check_fresh(env, names)
+        return "let %s := %s\n%s" % (pat, e, self.sstmts(env))
+
+    def let_else(self, env):
+        """`let Some(x) = it.next() else { … return …; };` and `let Some(x) = it.find(|v| pred) else { … };` on a live mutable
+        variable `it` that holds a list-backed iterator: `next` takes the head, `find` drops the longest prefix on which the
+        predicate fails and takes the head of what is left; the iterator continues behind the element taken"""
+        self.eat("id", "Some"); self.eat("op", "(")
+        x = self.eat("id")[1]
+        self.eat("op", ")"); self.eat("op", "=")
+        it = self.eat("id")[1]
+        typ = dict(env.muts).get(it)
+        if typ is None or not typ.startswith("List "):
+            raise TranslateError("let-else on %s, which is not a live list iterator" % it)
+        self.eat("op", ".")
+        m = self.eat("id")[1]
+        self.eat("op", "(")
+        if m == "next":
+            scrut = it
+        elif m == "find":
+            self.eat("op", "|")
+            v = self.eat("id")[1]
+            self.eat("op", "|")
+            self.bound.add(v)
+            pred = self.expr()
+            scrut = "(List.dropWhile (fun %s => !(%s)) %s)" % (v, pred, it)
+        else:
+            raise TranslateError("iterator method outside the fragment: .%s" % m)
+        self.eat("op", ")")
+        self.eat("id", "else")
+        diverge = "⟪DIVERGE⟫"
+        other = self.sblock(env.with_(cont=diverge, tail=None))
+        if diverge in other:
+            raise TranslateError("the else block of let-else must not fall through")
+        self.eat("op", ";")
+        self.check_fresh(env, [x])
+        rest = self.sstmts(env)
+        return "(match %s with\n  | [] => %s\n  | %s :: %s => %s)" % (scrut, par(other), x, it, par(rest))
+
+    def array_map(self, env, name):
+        """`let name = ARR.map(|x| { …; value });` on a fixed array: the closure body is unrolled element by element, in order;
+        assignments to captured mutable variables flow from one copy to the next"""
+        p, self.pending = self.pending, None
+        self.eat("op", ";")
+        after = self.i
+        before = set(self.bound)
+        self.i = p["start"]
+        self.eat("op", "|")
+        if self.at("&"):
+            self.eat()
+        x = self.eat("id")[1]
+        self.eat("op", "|")
+        body_start = self.i
+        self.check_fresh(env, [x, name])
+        copies = []
+        names = []
+
+        def no_return(v):
+            raise TranslateError("`return` inside a closure")
+        for j, elem in enumerate(p["array"]):
+            self.i = body_start
+            nj = "%s_%d" % (name, j)
+            names.append(nj)
+            mark = "⟪N%d⟫" % j
+            envj = env.with_(cont=None, tail=(lambda v, nj=nj, mark=mark: "let %s := %s\n%s" % (nj, v, mark)), retraw=no_return)
+            body = self.sblock(envj) if self.at("{") else envj.tail(self.expr())
+            if self.i != p["end"] - 1:
+                raise TranslateError("closure body not consumed")
+            if body.count(mark) != 1:
+                raise TranslateError("closure body with more than one exit")
+            copies.append((mark, "let %s := %s\n%s" % (x, elem, body)))
+        self.i = after
+        local = (self.bound - before) - {name}
+        if self.names_in(local, after, len(self.t)):
+            raise TranslateError("a name bound in the unrolled closure is used after it")
+        self.arrays[name] = names
+        rest = self.sstmts(env)
+        term = rest
+        for mark, c in reversed(copies):
+            term = c.replace(mark, term)
+        return term
+
+    def names_in(self, names, a, b):
+        return any(tk[0] == "id" and tk[1] in names for tk in self.t[a:b])
+
+    # ---- if / match statements
+    def skip_balanced(self):
+        self.eat("op", "{")
+        depth = 1
+        while depth:
+            tk = self.eat()
+            if tk[0] == "eof":
+                raise TranslateError("unbalanced block")
+            if tk == ("op", "{"): depth += 1
+            elif tk == ("op", "}"): depth -= 1
+
+    def skip_to_block(self):
+        depth = 0
+        while not (depth == 0 and self.at("{")):
+            tk = self.eat()
+            if tk[0] == "eof":
+                raise TranslateError("block expected")
+            if tk[1] in ("(", "[") and tk[0] == "op": depth += 1
+            elif tk[1] in (")", "]") and tk[0] == "op": depth -= 1
+
+    def skip_if_chain(self):
+        self.eat("id", "if")
+        self.skip_to_block()
+        self.skip_balanced()
+        if self.at("else"):
+            self.eat()
+            if self.at("if"):
+                self.skip_if_chain()
+            else:
+                self.skip_balanced()
+
+    def skip_match(self):
+        self.eat("id", "match")
+        self.skip_to_block()
+        self.skip_balanced()
+
+    def branch_stmt(self, env, skip, chain):
+        start = self.i
+        skip()
+        while self.at(";"):
+            self.eat()
+        is_tail = self.at("}") or self.at(",")
+        self.i = start
+        if is_tail:
+            term = chain(env)
+            while self.at(";"):
+                self.eat()
+            return term
+        before = set(self.bound)
+        term, facts = chain(env.with_(cont=PH, tail=None)), self.rest_facts
+        while self.at(";"):
+            self.eat()
+        local = self.bound - before
+        rest_start = self.i
+        self.minlen.update(facts)
+        rest = self.sstmts(env)
+        n = term.count(PH)
+        if n == 0:
+            raise TranslateError("statements after a branch that never falls through")
+        if n == 1 and not self.names_in(local, rest_start, self.i):
+            return term.replace(PH, par(rest))
+        # join point: the rest becomes a local function of the live mutable variables
+        k = self.gensym("k")
+        params = " ".join("(%s : %s)" % m for m in env.muts) or "(_ : Unit)"
+        args = " ".join(env.names()) or "()"
+        return "let %s := fun %s => (%s : %s)\n%s" % (k, params, rest, env.ty, term.replace(PH, "(%s %s)" % (k, args)))
+
+    LEN_EQ = re.compile(r"^\((.+)\.length == (\d+)\)$")
+    LEN_LT = re.compile(r"^\(decide \((.+)\.length < (\d+)\)\)$")
+    EMPTY = re.compile(r"^(.+)\.isEmpty$")
+
+    def len_facts(self, c):
+        """(facts inside the then-branch, facts after the `if` when the then-branch never falls through)"""
+        m = self.LEN_EQ.match(c)
+        if m:
+            return {m.group(1): int(m.group(2))}, {}
+        m = self.LEN_LT.match(c)
+        if m:
+            return {}, {m.group(1): int(m.group(2))}
+        m = self.EMPTY.match(c)
+        if m:
+            return {}, {m.group(1): 1}
+        return {}, {}
+
+    def if_chain(self, env):
+        self.rest_facts = {}
+        self.eat("id", "if")
+        c = self.expr()
+        inside, after = self.len_facts(c)
+        saved = dict(self.minlen)
+        self.minlen.update(inside)
+        a = self.sblock(env)
+        self.minlen = saved
+        if self.at("else"):
+            self.eat()
+            b = self.if_chain(env) if self.at("if") else self.sblock(env)
+            self.rest_facts = {}
+        else:
+            if env.cont is None:
+                raise TranslateError("`if` without `else` where a value is required")
+            b = env.cont
+            self.rest_facts = after if (env.cont == PH and PH not in a) else {}
+        return "(if %s then %s else %s)" % (c, par(a), par(b))
+
+    def match_chain(self, env):
+        self.eat("id", "match")
+        scrut = self.expr()
+        self.eat("op", "{")
+        arms = []
+        while not self.at("}"):
+            pats = self.patterns()
+            self.eat("op", "=>")
+            if self.at("unreachable"):
+                # a diverging arm: modelled as `return <value chosen by the job>` (for a unit function: the current state)
+                v = self.unreachable()
+                body = env.retraw(self.unit_value() if self.fn_unit else v)
+            elif self.at("{"):
+                body = self.sblock(env)
+            else:
+                body = self.arm_stmt(env)
+            if self.at(","):
+                self.eat()
+            arms.append("\n  | %s => %s" % (pats, par(body)))
+        self.eat("op", "}")
+        self.rest_facts = {}
+        if not arms:
+            raise TranslateError("empty match")
+        return "(match %s with%s)" % (scrut, "".join(arms))
+
+    def arm_stmt(self, env):
+        """a match arm without braces: one statement or a value, up to the `,`"""
+        if self.at("return"):
+            self.eat()
+            v = None if (self.at(",") or self.at("}")) else self.expr()
+            return env.retraw(self.fn_value(v))
+        a = self.try_assign(env)
+        if a is not None:
+            if env.cont is None:
+                raise TranslateError("assignment arm where a value is required")
+            return "(let %s := %s\n%s)" % (a[0], a[1], env.cont)
+        e = self.expr()
+        if env.tail is None:
+            raise TranslateError("value arm where no value is expected: %s" % e[:60])
+        return env.tail(e)
+
+    # ---- loops
+    def for_stmt(self, env):
+        self.eat("id", "for")
+        if self.at("&"):
+            self.eat()
+        x = self.eat("id")[1]
+        self.eat("id", "in")
+        if (self.at("&") and self.peek(1) == ("id", "mut") and self.peek(2)[0] == "id" and self.peek(2)[1] in env.names()
+                and self.peek(3) == ("op", "{")):
+            # `for x in &mut C { … }`: the body updates the element in place (and nothing else): C := C.map (x ↦ body x)
+            self.eat(); self.eat()
+            c = self.eat("id")[1]
+            ctyp = dict(env.muts)[c]
+            if not ctyp.startswith("List "):
+                raise TranslateError("`for … in &mut %s` on a non-list" % c)
+            etyp = ctyp[5:].strip()
+            if etyp.startswith("(") and etyp.endswith(")"):
+                etyp = etyp[1:-1]
+            self.check_fresh(env, [x])
+
+            def no_return(v):
+                raise TranslateError("`return` inside an in-place loop")
+            body = self.sblock(Env([(x, etyp)], x, None, no_return, etyp))
+            return "let %s := List.map (fun (%s : %s) => %s) %s\n%s" % (c, x, etyp, par(body), c, self.sstmts(env))
+        it = self.expr()
+        self.check_fresh(env, [x])
+        # does the body return from the function?
+        j = self.i
+        save = self.i
+        self.skip_balanced()
+        body_toks = self.t[save:self.i]
+        self.i = save
+        has_ret = ("id", "return") in body_toks
+        names = env.names()
+        n = len(names)
+        sigma = " × ".join(t for _, t in env.muts) or "Unit"
+        tup = "(" + ", ".join(names) + ")" if n != 1 else names[0]
+        if n == 0:
+            tup = "()"
+        s = self.gensym("s")
+
+        def unpack(sv):
+            return "".join("let %s := %s\n" % (nm, proj(sv, i, n)) for i, nm in enumerate(names))
+        rho = self.opts["ret_type"]
+        if has_ret:
+            ty = "Gen.Step (%s) (%s)" % (sigma, rho)
+            benv = Env(env.muts, "(Gen.Step.next %s)" % tup, None, lambda v: "(Gen.Step.ret %s)" % v, ty)
+        else:
+            benv = Env(env.muts, tup, None, None, "(%s)" % sigma)
+        body = self.sblock(benv)
+        rest = self.sstmts(env)
+        if has_ret:
+            r = self.gensym("r")
+            return ("(match Gen.loop (σ := %s) (ρ := %s) %s (fun %s (%s : %s) =>\n%s%s) %s with\n  | .ret %s => %s\n  | .next %s =>\n%s%s)"
+                    % (sigma, rho, it, x, s, sigma, unpack(s), body, tup, r, env.retraw(r), s, unpack(s), rest))
+        return ("let %s := List.foldl (fun (%s : %s) %s =>\n%s%s) %s %s\n%s%s"
+                % (s, s, sigma, x, unpack(s), body, tup, it, unpack(s), rest))
+
+
+def apply_subst(term, subst, resub):
+    for a, b in subst:
+        term = re.sub(r"(?<![A-Za-z_0-9.])" + re.escape(a) + r"(?![A-Za-z_0-9])", b, term)
+    for a, b in resub:
+        term = re.sub(a, b, term)
+    if "⟦" in term or "⟪" in term:
+        raise TranslateError("unresolved form in %s" % term[max(0, term.find("⟪") - 20):][:80])
+    return term
+
+
+def indent(term, n=2):
+    return "\n".join(" " * n + l.strip() if l.strip() else l for l in term.splitlines())
+
+
+def translate_fn(src, header_regex, paths, funcs, subst, structs=None, resub=(), opts=None):
+    """a whole function of the statement fragment"""
+    body = fn_body(src, header_regex)
+    toks = tokenize(body)
+    # `places`: a field of `&mut self` that the function updates is one mutable variable, e.g. `self.exterior` -> `self_exterior`
+    for place, var in (opts or {}).get("places", {}).items():
+        pt = tokenize(place)
+        out, i = [], 0
+        while i < len(toks):
+            if toks[i:i + len(pt)] == pt:
+                out.append(("id", var)); i += len(pt)
+            else:
+                out.append(toks[i]); i += 1
+        toks = out
+    p = StmtParser(toks, paths, funcs, structs, opts)
+    term = p.function()
+    return indent(apply_subst(term, subst, resub))
+
+
+def array_literal(src, header_regex, paths, funcs, structs=None):
+    """a function whose body is one fixed-length array literal: the list of its element terms (before substitutions)"""
+    body = fn_body(src, header_regex)
+    p = Parser(tokenize(body), paths, funcs, structs)
+    p.eat("op", "{"); p.eat("op", "[")
+    items = []
+    while not p.at("]"):
+        items.append(p.expr())
+        if p.at(","):
+            p.eat()
+    p.eat("op", "]"); p.eat("op", "}")
+    if p.peek()[0] != "eof" or not items:
+        raise TranslateError("not a single array literal")
+    return items
